@@ -8,10 +8,12 @@ import (
 	"sort"
 	"strings"
 	"sync"
+	"sync/atomic"
 	"testing"
 	"time"
 
 	dtls "github.com/pion/dtls/v3"
+	dtlsstate "github.com/pion/dtls/v3/internal/state"
 	"github.com/pion/dtls/v3/zzverif/refimpl"
 	"github.com/pion/dtls/v3/zzverif/world"
 )
@@ -22,7 +24,7 @@ const (
 	limitQueued    = 100
 	limitFragBytes = 2000000
 	limitFragCount = 1000
-	cacheSlack     = 2 // handshake cache may exceed the default run's maximum by this much
+	cacheSlack     = 8 // handshake cache may exceed the default run's maximum by this much
 )
 
 // spec identifies one case.
@@ -159,21 +161,28 @@ func (s *stormGuard) onEmit(d *world.Datagram) {
 		fmt.Fprintf(os.Stdout, "\n%s STORM %d emissions after one injected datagram: %s\n", childTag, stormLimit, world.Describe(d.Data))
 		os.Exit(3)
 	}
-	panic(fmt.Sprintf("C08 emission-storm: one injected datagram caused more than %d emissions at one fake instant (case %s input %s)", stormLimit, caseID, descOf(in)))
+	fmt.Fprintf(os.Stderr, "C08 emission-storm in case %s on input %s\n", caseID, descOf(in))
+	panic(fmt.Sprintf("C08 emission-storm: one injected datagram caused more than %d emissions at one fake instant", stormLimit))
 }
 
 // peek is the cheap private-state read used after every injection (bounds and liveness).
 type peekT struct {
-	closed, est                       bool
+	closed, est                        bool
 	queued, fragSize, fragCount, cache int
+	cur                                uint16 // next handshake message_seq the reassembly expects
 }
 
-func lightPeek(e *world.Endpoint) peekT {
+func lightPeek(e *world.Endpoint) peekT { return peekWith(e, true) }
+
+// peekWith reads the cache length only on request (the accessor copies the cache).
+func peekWith(e *world.Endpoint, cache bool) peekT {
 	var p peekT
 	dtls.VerifPeek(e.Conn, func(in dtls.VerifInternals) {
 		p.closed, p.est, p.queued = in.Closed, in.Established, in.QueuedEncrypted
-		p.fragSize, p.fragCount, _, _ = in.FragmentBuffer.VerifStats()
-		p.cache = len(in.HandshakeCache.VerifItems())
+		p.fragSize, p.fragCount, _, p.cur = in.FragmentBuffer.VerifStats()
+		if cache {
+			p.cache = len(in.HandshakeCache.VerifItems())
+		}
 	})
 	return p
 }
@@ -282,6 +291,8 @@ type runner struct {
 	// killsByClass counts associations ended by must-survive inputs of a class (skipping rule).
 	killsByClass map[string]int
 	cacheLimit   int
+	cacheFirst   string // first input after which the handshake cache exceeded its bound
+	cacheMaxSeen int
 	verbose      bool
 	// child-mode hooks (isolated execution)
 	onBegin func(i int, in *input)
@@ -343,7 +354,7 @@ func (r *runner) prepare() (list []*input, reachable bool, err error) {
 func (r *runner) genInfo(cx *ctx) *genInfo {
 	vs := cx.victim.Snapshot()
 	gi := &genInfo{thorough: r.sp.thorough, victimIsClient: cx.victim.IsClient, kx: cx.v.kx, emitted: cx.w.Emitted()}
-	gi.vw = view{is13: cx.v.V13, cidLen: len(vs.LocalCID)}
+	gi.vw = view{is13: cx.v.V13, cidLen: len(vs.LocalCID), est: established(cx.victim)}
 	gi.cur = vs.FragCur
 	if vs.HSRecv > 0 && vs.HSRecv <= 0xffff && uint16(vs.HSRecv) > gi.cur {
 		gi.cur = uint16(vs.HSRecv)
@@ -371,6 +382,8 @@ func (r *runner) genInfo(cx *ctx) *genInfo {
 func (r *runner) segment(list []*input, from int, single bool) int {
 	next := from
 	caseID := r.sp.id()
+	var injectedHere, wedged []*input
+	var wedgeWhy, wedgeState string
 	leak := world.RunLeak(r.t, r.sp.seed, func(w *world.World) {
 		cx, err := build(w, r.p, r.sp.v, r.sp.victimIsClient, r.sp.k)
 		if err != nil {
@@ -392,7 +405,9 @@ func (r *runner) segment(list []*input, from int, single bool) int {
 		tr := &world.Tracer{}
 		tr.Visit(pr.StateString(cx.n), "init")
 		lastPeek := lightPeek(victim)
+		startCur := lastPeek.cur
 		dead := false
+		sinceStart := 0
 		visits := 0
 		usedForger := false
 		allMustSurvive := true
@@ -435,6 +450,7 @@ func (r *runner) segment(list []*input, from int, single bool) int {
 			r.res.injected++
 			r.res.classes[in.class]++
 			lastIn = in
+			injectedHere = append(injectedHere, in)
 			if in.verdict != mustSurvive {
 				allMustSurvive = false
 			}
@@ -445,7 +461,13 @@ func (r *runner) segment(list []*input, from int, single bool) int {
 					r.res.count("reactions_discarded", 1)
 				}
 			}
-			pk := lightPeek(victim)
+			// the cache length is read after each of the first 64 injections of an association, then every 16th
+			sinceStart++
+			withCache := sinceStart <= 64 || sinceStart%16 == 0
+			pk := peekWith(victim, withCache)
+			if !withCache {
+				pk.cache = lastPeek.cache
+			}
 			r.bounds(pk, in)
 			hsDone, hsErr := victim.HS.Result()
 			dead = pk.closed || (hsDone && hsErr != nil)
@@ -469,7 +491,14 @@ func (r *runner) segment(list []*input, from int, single bool) int {
 				r.onEnd(next, in, status)
 			}
 			next++
-			if single {
+			if single && (next >= len(list) || in.unit == 0 || list[next].unit != in.unit) {
+				break
+			}
+			if !dead && pk.cur != startCur {
+				// the input was accepted as the next handshake message: the rest of the catalogue was built for the
+				// old message_seq. Let this association run on (delayed effects show in the continuation) and
+				// go on with the next input on a fresh one.
+				r.res.count("inputs_accepted_as_next_handshake_message", 1)
 				break
 			}
 		}
@@ -478,22 +507,28 @@ func (r *runner) segment(list []*input, from int, single bool) int {
 			if usedForger && fg != nil {
 				fg.commitSequence(peer)
 			}
+			if !allMustSurvive {
+				// Accepted unprotected (epoch 0) injections have advanced the victim's epoch-0 replay window far
+				// beyond the genuine peer's record numbers. That denial of service is inherent to unauthenticated
+				// epoch 0 and is not what this chain is about: let the peer's NEXT records (retransmissions) carry
+				// later numbers so that delayed effects of the accepted inputs (parsing at flight completion) are
+				// reached. Never done after must-survive-only chains: there a poisoned window IS a finding.
+				bumpEpoch0(peer, injectedSeqCeiling)
+			}
 			why := r.continuation(cx, reader, rl, allMustSurvive)
 			switch {
 			case why == "":
 				r.res.finalOK++
 			case allMustSurvive:
-				what := "chain"
-				if lastIn != nil && single {
-					what = lastIn.class
-				}
-				r.res.add(fmt.Sprintf("valid-traffic-not-served-after-must-survive-inputs:%s:%s:%s", r.vers(), r.sp.fam, why),
-					fmt.Sprintf("case %s: after injecting only inputs that must be dropped (%s; last %s) the association stopped serving valid traffic: %s; client=%v server=%v fsm client=%q server=%q",
-						caseID, what, descOf(lastIn), why, pr.C.HS, pr.S.HS, pr.C.Log.LastFSM(), pr.S.Log.LastFSM()))
+				wedged = append([]*input(nil), injectedHere...)
+				wedgeWhy = why
+				wedgeState = fmt.Sprintf("client=%v server=%v fsm client=%q server=%q", pr.C.HS, pr.S.HS, pr.C.Log.LastFSM(), pr.S.Log.LastFSM())
 			default:
 				r.res.count("lenient_chain_did_not_recover", 1)
 			}
+			// after the continuation only the fixed limits are checked (retransmissions legitimately add to the cache)
 			pk := lightPeek(victim)
+			pk.cache = 0
 			r.bounds(pk, lastIn)
 		}
 		if single && r.onEnd != nil && lastIn != nil {
@@ -519,11 +554,155 @@ func (r *runner) segment(list []*input, from int, single bool) int {
 		rl.mu.Unlock()
 		_ = reader
 	})
+	if wedged != nil {
+		// find ONE input that alone stops valid traffic (the cause key names its class)
+		min := r.minimize(wedged)
+		cause, what := "chain-of-"+r.sp.fam+"(not-reproduced-on-a-fresh-association)", fmt.Sprintf("the chain of %d inputs", len(wedged))
+		if len(min) > 0 {
+			cls := map[string]int{}
+			var descs []string
+			for _, in := range min {
+				cls[normClass(in.class)]++
+				if len(descs) < 4 {
+					descs = append(descs, descOf(in))
+				}
+			}
+			var parts []string
+			for _, c := range sortedKeys(cls) {
+				parts = append(parts, fmt.Sprintf("%dx[%s]", cls[c], c))
+			}
+			cause = strings.Join(parts, ",")
+			what = fmt.Sprintf("the minimal sequence of %d datagram(s) {%s}", len(min), strings.Join(descs, " ; "))
+		}
+		r.res.add(fmt.Sprintf("valid-traffic-not-served-after-datagram-that-must-be-dropped:%s:%s:%s", r.vers(), cause, wedgeWhy),
+			fmt.Sprintf("case %s: after %s — input(s) that must be dropped or are valid traffic — the association stopped serving valid traffic: %s; %s", caseID, what, wedgeWhy, wedgeState))
+	}
 	if leak != "" {
 		r.res.add("goroutine-leak-after:"+r.sp.fam, fmt.Sprintf("case %s: goroutines left blocked after closing both connections (inputs up to %d): %s", caseID, next, clip(leak, 300)))
 	}
 	r.res.segments++
 	return next
+}
+
+// injectedSeqCeiling is above every record sequence number the grammar uses in unprotected records.
+const injectedSeqCeiling = 0x700000
+
+func bumpEpoch0(peer *world.Endpoint, to uint64) {
+	dtls.VerifPoke(peer.Conn, func(in dtls.VerifInternals) {
+		cs := dtlsstate.CommonState(in.State)
+		if len(cs.LocalSequenceNumber) == 0 {
+			cs.LocalSequenceNumber = append(cs.LocalSequenceNumber, 0)
+		}
+		if atomic.LoadUint64(&cs.LocalSequenceNumber[0]) < to {
+			atomic.StoreUint64(&cs.LocalSequenceNumber[0], to)
+		}
+	})
+}
+
+func normClass(c string) string {
+	for _, p := range []string{"genuine-corrupted/", "genuine-truncated/", "reflected-corrupted/", "reflected-truncated/"} {
+		c = strings.TrimPrefix(c, p)
+	}
+	return c
+}
+
+// wedges injects sub on a fresh association and reports what the continuation lacks ("" = all served).
+func (r *runner) wedges(sub []*input) string {
+	why := ""
+	_ = world.RunLeak(r.t, r.sp.seed, func(w *world.World) {
+		cx, err := build(w, r.p, r.sp.v, r.sp.victimIsClient, r.sp.k)
+		if err != nil {
+			return
+		}
+		defer cx.pr.CloseAll()
+		w.OnEmit = storm.onEmit
+		baseID := w.EmittedCount()
+		rl := &readerLog{}
+		var reader *world.Op
+		if established(cx.victim) {
+			reader = startReader(w, cx.victim, rl)
+			w.Settle()
+		}
+		var fg *forger
+		for _, in := range sub {
+			data := in.data
+			if in.forge != nil {
+				if fg == nil {
+					fg = newForger(cx)
+				}
+				if fg == nil {
+					continue
+				}
+				d, serr := fg.seal(in.forge)
+				if serr != nil {
+					continue
+				}
+				data = d
+			}
+			storm.arm(r.sp.id(), in)
+			w.Push(cx.peer.Addr, cx.victim.Addr, data)
+			w.Settle()
+			storm.disarm()
+			for _, d := range w.InFlight() {
+				if d.ID >= baseID && d.Src == cx.victim.Addr {
+					w.Take(d)
+				}
+			}
+		}
+		if done, herr := cx.victim.HS.Result(); lightPeek(cx.victim).closed || (done && herr != nil) {
+			return
+		}
+		if fg != nil {
+			fg.commitSequence(cx.peer)
+		}
+		why = r.continuation(cx, reader, rl, true)
+	})
+	return why
+}
+
+// minimize is delta debugging (ddmin): a 1-minimal subsequence of sub that still stops valid traffic.
+func (r *runner) minimize(sub []*input) []*input {
+	if r.wedges(sub) == "" {
+		return nil // not reproducible on a fresh association
+	}
+	n := 2
+	for len(sub) >= 2 {
+		chunk := (len(sub) + n - 1) / n
+		reduced := false
+		// try each chunk alone, then each complement
+		for i := 0; i < len(sub) && !reduced; i += chunk {
+			end := i + chunk
+			if end > len(sub) {
+				end = len(sub)
+			}
+			if part := sub[i:end]; len(part) < len(sub) && r.wedges(part) != "" {
+				sub, n, reduced = append([]*input(nil), part...), 2, true
+			}
+		}
+		for i := 0; i < len(sub) && !reduced && n > 2; i += chunk {
+			end := i + chunk
+			if end > len(sub) {
+				end = len(sub)
+			}
+			comp := append(append([]*input(nil), sub[:i]...), sub[end:]...)
+			if len(comp) > 0 && r.wedges(comp) != "" {
+				sub, reduced = comp, true
+				if n > 2 {
+					n--
+				}
+			}
+		}
+		if !reduced {
+			if n >= len(sub) {
+				break
+			}
+			n *= 2
+			if n > len(sub) {
+				n = len(sub)
+			}
+		}
+	}
+	return sub
 }
 
 func opKind(name string) string {
@@ -571,7 +750,12 @@ func (r *runner) bounds(pk peekT, in *input) {
 		r.res.add("memory-bound-exceeded:fragment-buffer", fmt.Sprintf("case %s: fragment buffer holds %d bytes / %d fragments (limits %d / %d) after %s", caseID, pk.fragSize, pk.fragCount, limitFragBytes, limitFragCount, descOf(in)))
 	}
 	if pk.cache > r.cacheLimit {
-		r.res.add("memory-bound-exceeded:handshake-cache:"+r.vers(), fmt.Sprintf("case %s: handshake cache holds %d messages; the default run never holds more than %d (+%d slack) — injected messages accumulate; after %s", caseID, pk.cache, r.cacheLimit-cacheSlack, cacheSlack, descOf(in)))
+		if r.cacheFirst == "" {
+			r.cacheFirst = descOf(in)
+		}
+		if pk.cache > r.cacheMaxSeen {
+			r.cacheMaxSeen = pk.cache
+		}
 	}
 }
 
@@ -590,7 +774,7 @@ func (r *runner) killed(in *input, wasEst bool, hsErr error) string {
 	// the cause key names the library's reaction (its error), not the input: many inputs share one cause
 	key := fmt.Sprintf("%s-ended-by-datagram-that-must-be-dropped:%s:%s", phase, r.vers(), errShort(hsErr))
 	if wasEst {
-		key = fmt.Sprintf("%s-ended-by-datagram-that-must-be-dropped:%s:%s", phase, r.vers(), in.class)
+		key = fmt.Sprintf("%s-ended-by-datagram-that-must-be-dropped:%s:%s", phase, r.vers(), normClass(in.class))
 	}
 	r.res.add(key, fmt.Sprintf("case %s: %s ended by a datagram that must be dropped (%s, class %s): %s; victim handshake result: %v",
 		r.sp.id(), phase, in.verdict, in.class, descOf(in), hsErr))
@@ -633,8 +817,17 @@ func (r *runner) continuation(cx *ctx, reader *world.Op, rl *readerLog, strict b
 	return ""
 }
 
+// finish turns deferred observations into findings.
+func (r *runner) finish() {
+	if r.cacheFirst != "" {
+		r.res.add("memory-bound-exceeded:handshake-cache:"+r.vers(), fmt.Sprintf("case %s: injected handshake messages accumulate in the handshake cache without bound: it reached %d entries while the endpoint stayed alive (the default run never holds more than %d; bound used %d); first exceeded after %s",
+			r.sp.id(), r.cacheMaxSeen, r.cacheLimit-cacheSlack, r.cacheLimit, r.cacheFirst))
+	}
+}
+
 // run executes the case: catalogue, then chains.
 func (r *runner) run() {
+	defer r.finish()
 	r.res = &result{classes: map[string]int{}}
 	r.killsByClass = map[string]int{}
 	list, reachable, err := r.prepare()
@@ -649,6 +842,19 @@ func (r *runner) run() {
 	if len(list) == 0 {
 		r.res.skip, r.res.skipWhy = true, "empty catalogue in this context"
 		return
+	}
+	if pick := os.Getenv("C08_PICK"); pick != "" { // debugging aid: "lo-hi[,lo-hi...]" keeps inputs with lo <= idx <= hi
+		var f []*input
+		for _, in := range list {
+			for _, part := range strings.Split(pick, ",") {
+				var lo, hi int
+				if _, err := fmt.Sscanf(part, "%d-%d", &lo, &hi); err == nil && in.idx >= lo && in.idx <= hi {
+					f = append(f, in)
+					break
+				}
+			}
+		}
+		list = f
 	}
 	r.res.catalogue = len(list)
 	r.cacheLimit = cacheMax(r.t, r.p, r.sp.v, r.sp.seed) + cacheSlack
